@@ -28,6 +28,8 @@ type c05Case struct {
 	NilIO bool   `json:"nil_io,omitempty"`
 	Tag   string `json:"tag,omitempty"` // signature label for the arithmetic and stream matrices
 	Setup string `json:"setup,omitempty"`
+	// SetupQuery: a query run first on the same interpreter (stream histories)
+	SetupQuery string `json:"setup_query,omitempty"`
 }
 
 var c05Tokens = []string{"a", "X", "_", "0", "1", ".", ",", "|", "(", ")", "[", "]", "{", "}", "-", "+", "\\", "'", "\"", "0'", "0x", ":-", " ", "\n", "%", "é", "1.0e", "/*", "`"}
@@ -274,6 +276,7 @@ func c05Work(w *h.W) {
 		c05Arith(w, run)
 		c05Streams(w, run)
 		c05DB(w, emit)
+		c05StreamHistories(w, emit)
 	}
 	for _, pr := range c05Procedures() {
 		if pr.Name == "halt" {
@@ -502,6 +505,59 @@ func c05DB(w *h.W, emit func(c *c05Case, kind, detail string, size int)) {
 	}
 }
 
+// (f) stream-state histories: all sequences of <= L operations that change which streams exist and which
+// are current (closing the standard streams included), each followed by every probe that uses a stream
+var c05StreamOps = []string{
+	"close(user_input)", "close(user_output)", "open('c05in.txt', read, S), set_input(S)", "open('c05out.txt', write, S), set_output(S)",
+	"current_input(S), close(S)", "current_output(S), close(S)", "set_input(user_input)", "set_output(user_output)",
+	"open('c05in.txt', read, _, [alias(al)])", "close(al)", "set_input(al)", "open('c05out.txt', append, _, [alias(al)])", "set_output(al)", "close(user_error)",
+}
+
+var c05StreamProbes = []string{
+	"get_char(_)", "peek_char(_)", "read(_)", "at_end_of_stream", "write(x)", "nl", "put_char(a)", "flush_output",
+	"current_input(S), stream_property(S, P)", "current_output(S), stream_property(S, P)", "stream_property(S, alias(A))", "current_input(S), get_char(S, _)",
+	"current_output(S), write(S, x)", "get_char(user_input, _)", "write(user_output, x)", "write(user_error, x)", "findall(S, stream_property(S, _), L)",
+}
+
+func c05StreamHistories(w *h.W, emit func(c *c05Case, kind, detail string, size int)) {
+	maxLen := w.Pick(3, 4)
+	for l := 1; l <= maxLen; l++ {
+		seqs(l, len(c05StreamOps), func(idx []int) bool {
+			if !w.Mine() {
+				return true
+			}
+			if w.Expired() {
+				return false
+			}
+			var gs []string
+			for _, i := range idx {
+				gs = append(gs, "catch(("+c05StreamOps[i]+"), _, true)")
+			}
+			setup := strings.Join(gs, ", ") + " ."
+			for _, probe := range c05StreamProbes {
+				c := &c05Case{Kind: "goal", Goal: probe + " .", Tag: "stream history", SetupQuery: setup}
+				w.WAL(c)
+				w.GuardFor(c, 20*time.Second)
+				kind, detail := c05RunStreamHistory(c)
+				w.Unguard()
+				w.Nontrivial(setup + probe)
+				emit(c, kind, detail, l)
+			}
+			return true
+		})
+	}
+}
+
+func c05RunStreamHistory(c *c05Case) (kind, detail string) {
+	os.WriteFile("c05in.txt", []byte("foo. bar(X). \"text\". 12 'a"), 0o644)
+	p := c05NewInterp(false)
+	setup := &c05Case{Kind: "goal", Goal: c.SetupQuery}
+	if kind, detail = c05RunGoal(p, setup); kind != "" {
+		return "during the history: " + kind, detail
+	}
+	return c05RunGoal(p, c)
+}
+
 // c05RunGoalAll is c05RunGoal but takes up to 20 answers, so that every open alternative is resumed.
 func c05RunGoalAll(p *prolog.Interpreter, c *c05Case) (kind string, detail string) {
 	defer func() {
@@ -560,6 +616,8 @@ func c05Replay(b []byte) (string, string, bool) {
 	var kind, detail string
 	if c.Kind == "text" {
 		kind, detail = c05RunText(&c)
+	} else if c.SetupQuery != "" {
+		kind, detail = c05RunStreamHistory(&c)
 	} else if c.Setup != "" {
 		p := c05NewInterp(false)
 		if err := p.Exec(c.Setup); err != nil {
@@ -580,7 +638,7 @@ func c05Replay(b []byte) (string, string, bool) {
 func init() {
 	h.Register(&h.Check{
 		ID: "C05",
-		Rule: "(a) ALL strings of <= L symbols over a 29-symbol token alphabet taken from the lexer's switch (atoms, variables, digits, '.', ',', '|', every bracket, '-', '+', '\\\\', quote characters, 0', 0x, :-, layout, %, /*, a non-ASCII letter, a float prefix) each as is, with '.', and with ' .\\n', handed to Exec and to Query; all byte strings of length 1 and (quick: every 7th; thorough: all) of length 2; (b) EVERY registered procedure (read from the interpreter through a verif-tagged accessor, so the matrix follows the code) except halt/0,1 x all tuples of 14 (thorough: 22) argument shapes for arity <= 3 and of 8 (arity 4, 5) / 6 shapes above (unbound, atoms incl. empty, [], integers incl. extremes, float, compound, proper/partial/improper list, string, a stream, callable and non-callable terms), first answer plus one retry then Close, on an interpreter with real streams and (quick: every 5th tuple) on the documented prolog.New(nil, nil); (c) EVERY evaluable functor of eval's dispatch tables (read through a verif-tagged accessor) x a 25-value operand grid (unbound, atom, integers incl. 63/64/-64/extremes, floats incl. -0.0, largest and smallest, compound, string, lists, nested error) for both operands, unary ones also over every unary functor nested inside (thorough: every binary too), each under is/2, three comparisons and catch/3; (d) every procedure of arity 1..4 x 7 kinds of stream argument (closed input/output, open text/binary input/output, at end, closed alias) in every argument position x all tuples of 10 other shapes (quick, arity 4: 5); (e) database histories: all conjunctions of <= 3 (thorough: 4) goals from a 20-goal menu that calls, retracts, asserts, abolishes and enumerates a dynamic predicate with three clauses while calls of it are open, with and without a final fail, up to 20 answers. Distinct = text or goal.",
+		Rule: "(a) ALL strings of <= L symbols over a 29-symbol token alphabet taken from the lexer's switch (atoms, variables, digits, '.', ',', '|', every bracket, '-', '+', '\\\\', quote characters, 0', 0x, :-, layout, %, /*, a non-ASCII letter, a float prefix) each as is, with '.', and with ' .\\n', handed to Exec and to Query; all byte strings of length 1 and (quick: every 7th; thorough: all) of length 2; (b) EVERY registered procedure (read from the interpreter through a verif-tagged accessor, so the matrix follows the code) except halt/0,1 x all tuples of 14 (thorough: 22) argument shapes for arity <= 3 and of 8 (arity 4, 5) / 6 shapes above (unbound, atoms incl. empty, [], integers incl. extremes, float, compound, proper/partial/improper list, string, a stream, callable and non-callable terms), first answer plus one retry then Close, on an interpreter with real streams and (quick: every 5th tuple) on the documented prolog.New(nil, nil); (c) EVERY evaluable functor of eval's dispatch tables (read through a verif-tagged accessor) x a 25-value operand grid (unbound, atom, integers incl. 63/64/-64/extremes, floats incl. -0.0, largest and smallest, compound, string, lists, nested error) for both operands, unary ones also over every unary functor nested inside (thorough: every binary too), each under is/2, three comparisons and catch/3; (d) every procedure of arity 1..4 x 7 kinds of stream argument (closed input/output, open text/binary input/output, at end, closed alias) in every argument position x all tuples of 10 other shapes (quick, arity 4: 5); (e) database histories: all conjunctions of <= 3 (thorough: 4) goals from a 20-goal menu that calls, retracts, asserts, abolishes and enumerates a dynamic predicate with three clauses while calls of it are open, with and without a final fail, up to 20 answers; (f) stream-state histories: all sequences of <= 3 (4) of 14 operations that open, close, alias and make current input/output streams (the standard streams included), each followed by each of 17 probes that use a stream. Distinct = text or goal.",
 		Explanation: "state = a fresh (or regularly renewed) real interpreter in an isolated worker process; transition = one Exec/Query call; oracle: the worker process survives (a fatal runtime error is attributed to the exact input through a write-ahead record, re-running the batch in fine mode), the call returns (per-case watchdog), an error raised by a predicate is error(Formal, _) with an ISO formal error term, and no returned error is the residue of a recovered Go panic",
 		Assumptions: []string{"workers run in an empty scratch directory with GOMAXPROCS=1 and a 256 MB goroutine stack limit so that unbounded recursion dies quickly", "a Go error returned for a text that does not parse is the API's way to report a syntax error and is accepted"},
 		Work:          c05Work,
